@@ -103,7 +103,7 @@ func genC19Restart(tls bool) func(t *rapid.T) c19DelScenario {
 
 func c19GenRestart(t *rapid.T, tls bool) c19DelScenario {
 	sc := c19DelScenario{
-		TLS: tls,
+		TLS:      tls,
 		GossipMs: rapid.SampledFrom([]int{50, 70, 100}).Draw(t, "gossipMs"),
 		// --cluster.probe-interval / --cluster.probe-timeout defaults are 1 s / 500 ms
 		ProbeMs:     rapid.SampledFrom([]int{1000, 1000, 1200}).Draw(t, "probeMs"),
@@ -118,6 +118,12 @@ func c19GenRestart(t *rapid.T, tls bool) c19DelScenario {
 		live++
 	}
 	sc.Steps = append(sc.Steps, c19GenBatch(t, true))
+	// compound packets around the packet limit (c19GenCompound; the parts always
+	// fit one packet together): before the crash and at the very end, TLS cases
+	// both, plain cases each with probability 1/2
+	if tls || rapid.Bool().Draw(t, "compoundBeforeCrash") {
+		sc.Steps = append(sc.Steps, c19GenCompound(t, c19MaxPacket))
+	}
 	sc.Steps = append(sc.Steps, c19Step{Op: "crash", Slot: rapid.IntRange(0, live-1).Draw(t, "victim")})
 	live--
 	// usual: restarted at once, long before anybody declares the old name dead;
@@ -144,10 +150,14 @@ func c19GenRestart(t *rapid.T, tls bool) c19DelScenario {
 		sc.Steps = append(sc.Steps, c19Step{Op: "await_gone"})
 	}
 	sc.Steps = append(sc.Steps, c19GenGhostBatch(t, live, true))
+	if tls || rapid.Bool().Draw(t, "compoundAtEnd") {
+		// like every batch after the crash: all gossiped parts of the batch fit one packet together
+		sc.Steps = append(sc.Steps, c19GenCompound(t, c19MaxPacket))
+	}
 	return sc
 }
 
-const c19RestartRule = "scenario drawn by a rapid generator from the seed: 2-3 instances (generated join order and --cluster.peer subsets, probe interval 1-1.2 s, production default 1 s) exchange a first batch of 6-10 updates with sizes swept across the 700-byte limit; one generated instance is hard-crashed (its goroutines stop and its sockets close, no leave message); a NEW instance with a NEW name is started on the SAME ip:port, from the snapshot of the old one or empty, wired the same way, and joins a generated subset of the survivors - at once (80%, the survivors still list the old name as a member) or after the old name was declared dead (20%); 30% of the cases have a batch authored while the instance is down. The harness waits until every live instance lists every live name. Batches after the crash contain, by construction, one small and one oversized silence and notification-log update authored by survivors and two updates authored by the restarted instance (each small or oversized) plus 0-2 further oversized updates (new items, extended silences, re-logged entries): one batch right away while the old name may still be listed (60% of the at-once cases) and always one after no live instance lists the old name any more. memberlist keeps gossiping to a dead name until 30 s after it was declared dead and spends a fixed number (3) of transmissions per message, so gossip is best effort in that time and anti-entropy repairs it; to keep gossip delivery certain without anti-entropy the small updates of such a batch together fit one gossip packet and at most 3 instances are live (every live instance is a target of every gossip round). Periodic push/pull is off (24 h) and --cluster.reconnect-interval=0, so neither anti-entropy nor a re-join with the address of the dead name can mask a broken gossip or reliable-send path; every gossip queue is emptied before the restart so only the full-state exchange can serve the joiner. Oracle (that of C19Delivery): the restarted instance holds the complete state after its join; after every batch every live node answers the query for every item authored so far with the author's version (proto-equal); oversized_gossip_message_sent_total >= oversized payloads x live peers, dropped_total = 0. While a crashed name is still listed the premise 'stayed connected' is judged by name: every live node lists every live name, peers_joined_total unchanged, peers_left_total grew by no more than the crashed names that went away - otherwise the case is inconclusive. Non-trivial: the restart on the same address happened and, after no crashed name was listed any more, >=1 normal and >=1 oversized update were verified on every live node. A miss is retried twice from scratch with doubled deadlines (20/40/80 s); three misses = violation; environment errors (the port cannot be bound again, membership that does not converge, a failure detector that needs longer than twice the deadline) = inconclusive case; more than half of the cases inconclusive = inconclusive run. Transport: every third case (case index + seed = 0 mod 3) runs with every instance on the TLS gossip transport (--cluster.tls-config, mutual TLS with a throw-away CA; all packets over one pooled TCP/TLS connection per address), the others on memberlist's UDP/TCP transport; same oracle, classes transport:tls / transport:plain. The survivors of a TLS case hold pooled connections to the address of the crashed instance; when it crashes the harness shuts down the connections it had accepted (what the kernel does for a dead process), so the survivors get FIN/RST. TLS cases always restart at once (with TLS a survivor usually never declares a name dead while nothing listens on its address - membership, not part of this property), always have the batch right after the join, and between the restart and that batch every survivor pings the restarted instance through memberlist until one ping is acknowledged (at most 6, nothing judged, step 'warm'): the transport notices a dead pooled connection only through a failing write, so the first packet of every survivor after the restart is lost silently and the second fails; the pings spend that window (findings/C19-tls-restart-first-packets-lost.json is the scenario without them). After that every update, small ones included, authored by a survivor right after the join and after the old name is gone, must reach the restarted instance."
+const c19RestartRule = "scenario drawn by a rapid generator from the seed: 2-3 instances (generated join order and --cluster.peer subsets, probe interval 1-1.2 s, production default 1 s) exchange a first batch of 6-10 updates with sizes swept across the 700-byte limit; one generated instance is hard-crashed (its goroutines stop and its sockets close, no leave message); a NEW instance with a NEW name is started on the SAME ip:port, from the snapshot of the old one or empty, wired the same way, and joins a generated subset of the survivors - at once (80%, the survivors still list the old name as a member) or after the old name was declared dead (20%); 30% of the cases have a batch authored while the instance is down. The harness waits until every live instance lists every live name. Batches after the crash contain, by construction, one small and one oversized silence and notification-log update authored by survivors and two updates authored by the restarted instance (each small or oversized) plus 0-2 further oversized updates (new items, extended silences, re-logged entries): one batch right away while the old name may still be listed (60% of the at-once cases) and always one after no live instance lists the old name any more. memberlist keeps gossiping to a dead name until 30 s after it was declared dead and spends a fixed number (3) of transmissions per message, so gossip is best effort in that time and anti-entropy repairs it; to keep gossip delivery certain without anti-entropy the small updates of such a batch together fit one gossip packet and at most 3 instances are live (every live instance is a target of every gossip round). Compound packets (see C19Delivery: a QUIET batch in which one author queues two or three new incompressible silences back to back into empty gossip queues, sized so that the compound packet memberlist builds from them has a size drawn uniformly from 1330..1405 bytes - always one packet, like every batch after the crash; the harness waits before and after it until every gossip queue is empty, so its near-limit retransmissions never compete with the next batch while a dead name is a gossip target): one right before the crash and one at the very end, TLS cases both, plain cases each with probability 1/2; classes compound-near-packet-limit(:tls), compound-packet-bytes:<bin>, compound-tls-frame-above-1400. Periodic push/pull is off (24 h) and --cluster.reconnect-interval=0, so neither anti-entropy nor a re-join with the address of the dead name can mask a broken gossip or reliable-send path; every gossip queue is emptied before the restart so only the full-state exchange can serve the joiner. Oracle (that of C19Delivery): the restarted instance holds the complete state after its join; after every batch every live node answers the query for every item authored so far with the author's version (proto-equal); oversized_gossip_message_sent_total >= oversized payloads x live peers, dropped_total = 0. While a crashed name is still listed the premise 'stayed connected' is judged by name: every live node lists every live name, peers_joined_total unchanged, peers_left_total grew by no more than the crashed names that went away - otherwise the case is inconclusive. Non-trivial: the restart on the same address happened and, after no crashed name was listed any more, >=1 normal and >=1 oversized update were verified on every live node. A miss is retried twice from scratch with doubled deadlines (20/40/80 s); three misses = violation; environment errors (the port cannot be bound again, membership that does not converge, a failure detector that needs longer than twice the deadline) = inconclusive case; more than half of the cases inconclusive = inconclusive run. Transport: every third case (case index + seed = 0 mod 3) runs with every instance on the TLS gossip transport (--cluster.tls-config, mutual TLS with a throw-away CA; all packets over one pooled TCP/TLS connection per address), the others on memberlist's UDP/TCP transport; same oracle, classes transport:tls / transport:plain. The survivors of a TLS case hold pooled connections to the address of the crashed instance; when it crashes the harness shuts down the connections it had accepted (what the kernel does for a dead process), so the survivors get FIN/RST. TLS cases always restart at once (with TLS a survivor usually never declares a name dead while nothing listens on its address - membership, not part of this property), always have the batch right after the join, and between the restart and that batch every survivor pings the restarted instance through memberlist until one ping is acknowledged (at most 6, nothing judged, step 'warm'): the transport notices a dead pooled connection only through a failing write, so the first packet of every survivor after the restart is lost silently and the second fails; the pings spend that window (findings/C19-tls-restart-first-packets-lost.json is the scenario without them). After that every update, small ones included, authored by a survivor right after the join and after the old name is gone, must reach the restarted instance."
 
 func TestC19Restart(t *testing.T) {
 	const name = "C19Restart"
@@ -199,6 +209,12 @@ func TestC19Restart(t *testing.T) {
 		}
 		sort.Strings(cls)
 		cls = append(cls, fmt.Sprintf("live-at-end=%d", len(c.live)), c19TransportClass(sc))
+		if sc.TLS && c.classes["compound-near-packet-limit"] {
+			cls = append(cls, "compound-near-packet-limit:tls")
+		}
+		if c19Compounds = append(c19Compounds, c.compounds...); len(c19Compounds) > 0 && len(c19Compounds) <= 96 {
+			m.Set("compound_packets", c19Compounds)
+		}
 		nontrivial := c.restarted != nil && c.markGone != nil &&
 			c.overNormal[0] > c.markGone[0] && c.overNormal[1] > c.markGone[1]
 		m.Case(sc, nontrivial, cls...)
